@@ -14,6 +14,10 @@ from .arr import Arr, ArrBase, View, Masked, NP, Opaque, to_arr
 REPO = os.environ.get('KVC_REPO', '/repo')
 
 
+class SchemaGap(Unsupported):
+    pass
+
+
 class ReturnEx(Exception):
     def __init__(self, v):
         self.v = v
@@ -198,12 +202,12 @@ class Obj(object):
 
     # allow contract code to use natural attribute syntax
     def __getattr__(self, k):
-        if k.startswith('__') or k in ('cls', 'fields'):
+        if k.startswith('__') or k in ('cls', 'fields', '_schema'):
             raise AttributeError(k)
         return self.cls.interp.getattr(self, k)
 
     def __setattr__(self, k, v):
-        if k in ('cls', 'fields'):
+        if k in ('cls', 'fields', '_schema'):
             object.__setattr__(self, k, v)
         else:
             self.cls.interp.setattr(self, k, v)
@@ -307,9 +311,10 @@ def exc_matches(name, handler_name):
 
 
 class LoopSpec(object):
-    """invariant for a while loop (or symbolic-range for loop): see Interp.exec_While"""
-    def __init__(self, invariant, havoc, variant=None, name='loop'):
-        self.invariant, self.havoc, self.variant, self.name = invariant, havoc, variant, name
+    """invariant for a while loop: see Interp.exec_loop_with_spec"""
+    def __init__(self, invariant, havoc, name='loop', ghost=None, body_post=None, exit_post=None):
+        self.invariant, self.havoc, self.name = invariant, havoc, name
+        self.ghost, self.body_post, self.exit_post = ghost, body_post, exit_post
 
 
 class Interp(object):
@@ -501,13 +506,14 @@ class Interp(object):
     def exec_ClassDef(self, st, env, module, func):
         bases = [self.eval(b, env, module, func) for b in st.bases]
         c = Cls(self, st.name, bases, module)
-        cenv = {}
+        cenv = _ChainEnv({}, env)
         for s in st.body:
             if isinstance(s, ast.FunctionDef):
                 self.where = '%s:%d' % (module.relpath, s.lineno)
                 self.exec_FunctionDef(s, cenv, module, func, owner=c)
             else:
-                self.exec_stmt(s, _ChainEnv(cenv, env), module, func)
+                self.exec_stmt(s, cenv, module, func)
+        cenv = dict(dict.items(cenv))
         cenv.pop('__name__', None)
         c.attrs = cenv
         if c.is_enum:
@@ -637,15 +643,39 @@ class Interp(object):
         self.exec_block(st.orelse, env, module, func)
 
     def exec_loop_with_spec(self, st, spec, env, module, func):
+        """while loop with a sidecar invariant: prove on entry, havoc what the body may modify, assume the
+        invariant, then (a) condition true: run the body once, prove the invariant (+ per-iteration
+        obligations `body_post`) and end the path; (b) condition false: prove `exit_post`, continue."""
         c = CTX()
         where = self.where
         for name, t in spec.invariant(env, c):
             c.prove('%s/entry/%s' % (spec.name, name), t, kind='loop-invariant', where=where)
-        ghost = spec.havoc(env, c)
+        if getattr(c, 'replay', False):
+            # concrete replay: just run the loop
+            n = 0
+            while truth(self.eval(st.test, env, module, func)):
+                n += 1
+                if n > 100000:
+                    raise Unsupported('replay loop too long')
+                ghost = spec.ghost(env, c) if getattr(spec, 'ghost', None) else {}
+                try:
+                    self.exec_block(st.body, env, module, func)
+                except BreakEx:
+                    break
+                except ContinueEx:
+                    pass
+                for name, t in spec.invariant(env, c):
+                    c.prove('%s/preserved/%s' % (spec.name, name), t, kind='loop-invariant', where=where)
+                if getattr(spec, 'body_post', None):
+                    spec.body_post(env, c, ghost)
+            if getattr(spec, 'exit_post', None):
+                spec.exit_post(env, c)
+            return
+        spec.havoc(env, c)
         for name, t in spec.invariant(env, c):
             c.assume(t)
+        ghost = spec.ghost(env, c) if getattr(spec, 'ghost', None) else {}
         if truth(self.eval(st.test, env, module, func)):
-            v0 = spec.variant(env, c) if spec.variant else None
             try:
                 self.exec_block(st.body, env, module, func)
             except BreakEx:
@@ -654,16 +684,11 @@ class Interp(object):
                 pass
             for name, t in spec.invariant(env, c):
                 c.prove('%s/preserved/%s' % (spec.name, name), t, kind='loop-invariant', where=where)
-            if spec.variant:
-                v1 = spec.variant(env, c)
-                # the loop may also be left through its condition; the variant is only required to
-                # decrease (and stay bounded below) when another iteration follows
-                cont = self.eval(st.test, env, module, func)
-                c.prove('%s/variant-decreases' % spec.name, sym.implies(cont, sym.and_(v1 < v0, v0 >= 0 if False else True)), kind='termination', where=where)
-                c.prove('%s/variant-bounded' % spec.name, sym.implies(cont, v1 >= 0), kind='termination', where=where)
             if getattr(spec, 'body_post', None):
                 spec.body_post(env, c, ghost)
             raise PathEnd()
+        if getattr(spec, 'exit_post', None):
+            spec.exit_post(env, c)
         # loop exit: invariant and negated condition are in the path condition
 
     def exec_For(self, st, env, module, func):
@@ -787,6 +812,10 @@ class Interp(object):
                     return o.cls
                 if name == '__dict__':
                     return o.fields
+                if getattr(o, '_schema', False) and not name.startswith('__'):
+                    # the object state was built from a class-invariant schema that does not know this field:
+                    # the contract needs extending; this is not evidence of a defect ("needs contract")
+                    raise SchemaGap('%s field %s.%s is read but is not part of the class-invariant schema' % (self.where, o.cls.name, name))
                 raise PyRaise('AttributeError', "'%s' object has no attribute '%s'" % (o.cls.name, name), self.where)
             if isinstance(a, Func):
                 return BoundMethod(a, o)
@@ -1108,6 +1137,10 @@ class Interp(object):
     def binop(self, opname, a, b):
         a, b = sym._generic(a), sym._generic(b)
         sc_a, sc_b = _is_scalar(a), _is_scalar(b)
+        if isinstance(a, sym.FPV) or isinstance(b, sym.FPV):
+            if opname in ('Add', 'Sub', 'Mult', 'Div') and sc_a and sc_b:
+                return _PY_OPS[opname](a, b)
+            raise Unsupported('%s operator %s in FP64 mode' % (self.where, opname))
         if sc_a and sc_b:
             f = _SCALAR_OPS.get(opname)
             if f is None:
@@ -1153,6 +1186,14 @@ class Interp(object):
             d = dict(a)
             d.update(b)
             return d
+        if not isinstance(a, (Func, BoundMethod, Cls, Module)) and not isinstance(b, (Func, BoundMethod, Cls, Module)):
+            # host objects supplied by contracts (opaque state/derivative tokens) define their own algebra
+            try:
+                r = _PY_OPS[opname](a, b)
+                if r is not NotImplemented:
+                    return r
+            except TypeError:
+                pass
         raise PyRaise('TypeError', "unsupported operand type(s) for %s: '%s' and '%s'" % (opname, type(a).__name__, type(b).__name__), self.where)
 
     def eval_Compare(self, e, env, module, func):
@@ -1183,6 +1224,9 @@ class Interp(object):
             if (a is None or b is None or isinstance(a, str) or isinstance(b, str)) and sop in ('==', '!='):
                 return sop == '!='
             return _PY_CMP[sop](a, b)
+        if isinstance(a, sym.FPV) or isinstance(b, sym.FPV):
+            if _is_scalar(a) and _is_scalar(b):
+                return _PY_CMP[sop](sym.FPV.of(a), sym.FPV.of(b))
         if _is_scalar(a) and _is_scalar(b):
             return sym.cmp(sop, a, b)
         if sop in ('==', '!='):
@@ -1499,7 +1543,7 @@ def truth(v):
 
 
 def _is_scalar(x):
-    return isinstance(x, (SV, Fraction, int, float, bool)) and not isinstance(x, (ArrBase,))
+    return isinstance(x, (SV, Fraction, int, float, bool, sym.FPV)) and not isinstance(x, (ArrBase,))
 
 
 def _identical(a, b):
